@@ -24,6 +24,8 @@ import (
 var c01l2configs = map[string]string{
 	"plain":       "configVersion: v1\nkubernetes:\n- name: k1\n  kind: ConfigMap\n  namespace: {nameSelector: {matchNames: [n1]}}\n",
 	"plain-queue": "configVersion: v1\nkubernetes:\n- name: k1\n  kind: ConfigMap\n  queue: q2\n  namespace: {nameSelector: {matchNames: [n1]}}\n",
+	// two bindings without a name (both are called "kubernetes"): each has a monitor of its own
+	"unnamed-pair": "configVersion: v1\nkubernetes:\n- kind: ConfigMap\n  namespace: {nameSelector: {matchNames: [n1]}}\n- kind: ConfigMap\n  namespace: {nameSelector: {matchNames: [n2]}}\n",
 	"group":       "configVersion: v1\nkubernetes:\n- name: k1\n  kind: ConfigMap\n  group: g\n  namespace: {nameSelector: {matchNames: [n1]}}\n- name: k2\n  kind: ConfigMap\n  group: g\n  namespace: {nameSelector: {matchNames: [n2]}}\n",
 }
 
@@ -194,6 +196,50 @@ func c01l2check(cfgName string, fails int, obs *c01l2obs) (string, string) {
 	if !obs.Settled {
 		return "C01-L2 not-settled", fmt.Sprintf("end=%s runs=%s", obs.End, c03runs(fx))
 	}
+	if cfgName == "unnamed-pair" {
+		// the two bindings share their name: tell them apart by the namespace of the object concerned
+		nsOf := func(o any) string {
+			m, _ := o.(map[string]any)
+			if inner, ok := m["object"].(map[string]any); ok {
+				m = inner
+			}
+			md, _ := m["metadata"].(map[string]any)
+			ns, _ := md["namespace"].(string)
+			return ns
+		}
+		// Two bindings under one name: which Synchronization context belongs to which of them is
+		// not defined (contexts are told apart by the binding name), so only what does not depend
+		// on that is checked: both bindings get a Synchronization, and every binding's changes
+		// reach the hook as Events, in order, up to the cluster's final state.
+		view := map[string]int{"n1": -1, "n2": -1}
+		syncs := 0
+		for _, r := range fx.Runs {
+			for _, c := range r.Contexts {
+				switch c["type"] {
+				case "Synchronization":
+					if !r.Failed {
+						syncs++
+					}
+				case "Event":
+					ns := nsOf(c["object"])
+					v := verOfObj(c["object"])
+					if v < view[ns] {
+						return "C01-L2 event-order", fmt.Sprintf("Event for %s/o version %d after the hook had seen version %d", ns, v, view[ns])
+					}
+					view[ns] = v
+				}
+			}
+		}
+		if syncs != 2 {
+			return "C01-L2 no-synchronization", fmt.Sprintf("%d successful Synchronization contexts for two bindings; runs: %s", syncs, c03runs(fx))
+		}
+		for _, ns := range []string{"n1", "n2"} {
+			if view[ns] != obs.Final[ns] {
+				return "C01-L2 lost-event binding=unnamed", fmt.Sprintf("the Events the hook got for %s/o end at version %d, the cluster has version %d; runs: %s", ns, view[ns], obs.Final[ns], c03runs(fx))
+			}
+		}
+		return "", ""
+	}
 	if cfgName != "group" {
 		// Synchronization view + Events, per object, in order
 		view := -2
@@ -284,6 +330,7 @@ func TestVerifC01L2(t *testing.T) {
 		}
 		scs = append(scs, sc{c, 0, true})
 	}
+	scs = append(scs, sc{"unnamed-pair", 0, false})
 	for i, s := range scs {
 		if !r.Replaying() && i%shards != shard {
 			continue
